@@ -35,7 +35,7 @@ class World(object):
         self.fs.reset(self.target)
         self.fi.reset(self.target)
         if tr == "sgio":
-            return mod("pyscsi.pyscsi.scsi_device").SCSIDevice(self.path)
+            return mod("pyscsi.pyscsi.scsi_device").SCSIDevice(self.path, readwrite=True)
         return mod("pyscsi.pyiscsi.iscsi_device").ISCSIDevice("iscsi://127.0.0.1:3260/iqn.t/0", "iqn.i")
 
     def close(self):
